@@ -43,15 +43,15 @@ func c14Keys() []string {
 	return []string{
 		"a",
 		"a#1",
-		p36,                        // a 48-character file name …
-		long(p36, 236, 'b'),        // … that is also the first directory of this fragmented key
-		long("k191-", 191, 'x'),    // 255 encoded characters: longest unfragmented name
-		long("k192-", 192, 'y'),    // 256 encoded characters: shortest fragmented name
-		long("http://h/216-", 216, 'z'),           // encoding ends exactly on a fragment boundary (6 x 48) …
-		long("http://h/216-", 216, 'z') + "#0",    // … and its extension needs the last fragment as a directory
-		long(p36, 300, 'c'),        // shares its first fragment with two other keys
-		string(all),                // every byte value
-		"",                         // the empty key
+		p36,                                    // a 48-character file name …
+		long(p36, 236, 'b'),                    // … that is also the first directory of this fragmented key
+		long("k191-", 191, 'x'),                // 255 encoded characters: longest unfragmented name
+		long("k192-", 192, 'y'),                // 256 encoded characters: shortest fragmented name
+		long("http://h/216-", 216, 'z'),        // encoding ends exactly on a fragment boundary (6 x 48) …
+		long("http://h/216-", 216, 'z') + "#0", // … and its extension needs the last fragment as a directory
+		long(p36, 300, 'c'),                    // shares its first fragment with two other keys
+		string(all),                            // every byte value
+		"",                                     // the empty key
 	}
 }
 
